@@ -188,7 +188,7 @@ func (p *Prog) Callees(c *ssa.CallCommon) []*ssa.Function {
 		case *ssa.Function:
 			return []*ssa.Function{v}
 		case *ssa.MakeClosure:
-			return []*ssa.Function{v.Fn.(*ssa.Function)}
+			return []*ssa.Function{p.Unwrap(v.Fn.(*ssa.Function))}
 		case *ssa.Builtin:
 			return nil
 		}
@@ -199,7 +199,7 @@ func (p *Prog) Callees(c *ssa.CallCommon) []*ssa.Function {
 			case *ssa.Function:
 				out = append(out, v)
 			case *ssa.MakeClosure:
-				out = append(out, v.Fn.(*ssa.Function))
+				out = append(out, p.Unwrap(v.Fn.(*ssa.Function)))
 			}
 		}
 		return out
@@ -311,7 +311,7 @@ func (p *Prog) OutEdges(fn *ssa.Function) []CallEdge {
 			for _, a := range ci.Common().Args {
 				for _, r := range Sources(a) {
 					if mc, ok := r.(*ssa.MakeClosure); ok {
-						f := mc.Fn.(*ssa.Function)
+						f := p.Unwrap(mc.Fn.(*ssa.Function))
 						already := false
 						for _, callee := range p.Callees(ci.Common()) {
 							if callee == f {
@@ -797,4 +797,18 @@ func WithAnon(fn *ssa.Function) []*ssa.Function {
 		out = append(out, WithAnon(a)...)
 	}
 	return out
+}
+
+// Unwrap maps a synthetic bound-method wrapper or thunk (x.m used as a
+// value) to the declared method it forwards to.
+func (p *Prog) Unwrap(fn *ssa.Function) *ssa.Function {
+	if fn == nil || fn.Synthetic == "" {
+		return fn
+	}
+	if obj, ok := fn.Object().(*types.Func); ok {
+		if d := p.SSA.FuncValue(obj); d != nil && d.Synthetic == "" {
+			return d
+		}
+	}
+	return fn
 }
